@@ -1,5 +1,4 @@
-import MorfuseModel.Unwind.Nested
-import MorfuseModel.Sched.TimerLemmas
+import MorfuseModel.Unwind.Due
 /-!
 # Unwind model — the potential that every step lowers (class `Nest`, protection on)
 -/
@@ -56,13 +55,13 @@ def Cw (N D : Nat) : Nat := N * W N D + 3
 def phi (N D : Nat) (s : St) : Nat :=
   if s.ub then 0
   else if s.exc.isSome then s.stack.length
-  else pot N D s.stack + s.timer.elems.length * Cw N D
+  else pot N D s.stack + dueCount s.timer * Cw N D
 
 theorem phi_exc {N D : Nat} {s : St} {e : Exc} (hu : s.ub = false) (he : s.exc = some e) :
     phi N D s = s.stack.length := by simp [phi, hu, he]
 
 theorem phi_norm {N D : Nat} {s : St} (hu : s.ub = false) (he : s.exc = none) :
-    phi N D s = pot N D s.stack + s.timer.elems.length * Cw N D := by simp [phi, hu, he]
+    phi N D s = pot N D s.stack + dueCount s.timer * Cw N D := by simp [phi, hu, he]
 
 theorem sub_mul_step {N n : Nat} (a : Nat) (h : n < N) : (N - n) * a = (N - (n + 1)) * a + a := by
   have : N - n = (N - (n + 1)) + 1 := by omega
@@ -80,26 +79,28 @@ theorem topFetch_of_low {δ L : Nat} {s : St} (h : lowOK s.stack) : TopFetch δ 
   rw [hst] at h
   exact (lowOK_no_fetch h).elim
 
+theorem enterVM_timer (E : Env) (s : St) (t : Tid) : (enterVM E s t).timer = s.timer := by
+  unfold enterVM; (repeat' split) <;> simp [tick]
+
 /-- `ScriptExecuteInternal` entered: either the new VM is refused or it is on top -/
 theorem enterSei_cases (E : Env) (s : St) (t : Tid) :
-    ((enterSei E s t).timer.elems.length ≤ s.timer.elems.length ∧ (enterSei E s t).ub = s.ub) ∧
+    (dueCount (enterSei E s t).timer ≤ dueCount s.timer ∧ (enterSei E s t).ub = s.ub) ∧
     ((s.depth > E.cfg.maxDepth ∧ (enterSei E s t).stack = .sei t s.cur :: s.stack ∧ (enterSei E s t).exc = some .depth) ∨
      (¬ s.depth > E.cfg.maxDepth ∧ ∃ dl ct, (enterSei E s t).stack = .vm t dl ct false 0 :: .sei t s.cur :: s.stack ∧
         (enterSei E s t).exc = s.exc)) := by
   unfold enterSei
-  have ht := stopThread_timer { s with prev := s.cur, cur := some t } t
+  have ht := stopThread_due { s with prev := s.cur, cur := some t } t
   by_cases hd : s.depth > E.cfg.maxDepth
   · obtain ⟨h1, _, h3, _, h5, _⟩ := enterVM_over E { (stopThread { s with prev := s.cur, cur := some t } t) with
         stack := .sei t s.cur :: (stopThread { s with prev := s.cur, cur := some t } t).stack } t (by simpa using hd)
     refine ⟨⟨?_, ?_⟩, Or.inl ⟨hd, ?_, h3⟩⟩
-    · simp [enterVM, hd]; simpa using ht
+    · rw [enterVM_timer]; simpa using ht
     · rw [h5]; simp
     · rw [h1]; simp
   · obtain ⟨dl, ct, h1, _, h3, _, h5, _⟩ := enterVM_ok E { (stopThread { s with prev := s.cur, cur := some t } t) with
         stack := .sei t s.cur :: (stopThread { s with prev := s.cur, cur := some t } t).stack } t (by simpa using hd)
     refine ⟨⟨?_, ?_⟩, Or.inr ⟨hd, dl, ct, ?_, ?_⟩⟩
-    · simp only [enterVM, stopThread_depth, hd, if_false]
-      split <;> (simp [tick]; simpa using ht)
+    · rw [enterVM_timer]; simpa using ht
     · rw [h5]; simp
     · rw [h1]; simp
     · rw [h3]; simp
@@ -112,15 +113,21 @@ structure Ctx (E : Env) (δ : Nat) : Prop where
   hδ : 0 < δ
   inc : ∀ i, E.inc i ≥ δ
 
+/-- every `wait d` of the program is not due before the next frame: `m_time < scaledTime + d` -/
+def WaitOK (E : Env) (s : St) : Prop :=
+  ∀ l pc ms, (E.prog.getD l []).getD pc .done = .wait ms → s.timer.mtime < s.scaled + ms
+
 structure Good (E : Env) (δ : Nat) (s : St) : Prop where
   inv : Inv 0 s
   ok : AllOK δ E.cfg.maxExec s
   gs : GoodS s
   tf : TopFetch δ E.cfg.maxExec s
+  wok : WaitOK E s
 
 theorem execOp_dec (E : Env) (δ : Nat) (C : Ctx E δ) (s : St) (g : Good E δ s) (t : Tid) (th : Thr) (dl ct n : Nat)
     (rest : List Frame) (op : Op) (hop : GOp E.prog.length op = true) (hst : s.stack = .vm t dl ct false n :: rest)
-    (hexc : s.exc = none) (hub : s.ub = false) (hrun : vmRunning s t = true) :
+    (hexc : s.exc = none) (hub : s.ub = false) (hrun : vmRunning s t = true)
+    (hw : ∀ ms, op = .wait ms → s.timer.mtime < s.scaled + ms) :
     let N := E.cfg.maxExec / δ + 1
     let D := E.cfg.maxDepth
     TopFetch δ E.cfg.maxExec (execOp E s t th dl ct n rest op) ∧
@@ -135,17 +142,17 @@ theorem execOp_dec (E : Env) (δ : Nat) (C : Ctx E δ) (s : St) (g : Good E δ s
   have ha3 := W_ge3 N (D - vmCount rest)
   have hsm := sub_mul_step (W N (D - vmCount rest)) hn
   have hpl := pot_ge_length N D rest
-  have hold : phi N D s = (N - n) * W N (D - vmCount rest) + 1 + pot N D rest + s.timer.elems.length * Cw N D := by
+  have hold : phi N D s = (N - n) * W N (D - vmCount rest) + 1 + pot N D rest + dueCount s.timer * Cw N D := by
     simp [phi, hub, hexc, hst, pot]
   have hdep : s.depth = vmCount rest + 1 := by have := g.inv.depth; rw [hst] at this; simpa [vmCount] using this
   -- the frame after the instruction body, on top of `rest`, with a timer that did not grow
   have simple : ∀ s' : St, s'.stack = .vm t dl ct true (n + 1) :: rest → s'.exc = none → s'.ub = false →
-      s'.timer.elems.length ≤ s.timer.elems.length →
+      dueCount s'.timer ≤ dueCount s.timer →
       TopFetch δ E.cfg.maxExec s' ∧ phi N D s' < phi N D s := by
     intro s' h1 h2 h3 h4
     refine ⟨?_, ?_⟩
     · intro t' dl' ct' n' r' hst' _; rw [h1] at hst'; cases hst'
-    · have : phi N D s' = (N - (n + 1)) * W N (D - vmCount rest) + 2 + pot N D rest + s'.timer.elems.length * Cw N D := by
+    · have : phi N D s' = (N - (n + 1)) * W N (D - vmCount rest) + 2 + pot N D rest + dueCount s'.timer * Cw N D := by
         simp [phi, h3, h2, h1, pot]
       rw [this, hold, hsm]
       have := Nat.mul_le_mul_right (Cw N D) h4
@@ -156,7 +163,13 @@ theorem execOp_dec (E : Env) (δ : Nat) (C : Ctx E δ) (s : St) (g : Good E δ s
   case setc => exact simple _ rfl hexc hub (Nat.le_refl _)
   case loopTest => split <;> exact simple _ rfl hexc hub (Nat.le_refl _)
   case print => exact simple _ rfl hexc hub (Nat.le_refl _)
-  case done => exact simple _ rfl (by simpa using hexc) (by simpa using hub) (endThread_timer g.gs.nojoin t)
+  case done => exact simple _ rfl (by simpa using hexc) (by simpa using hub) (endThread_due g.gs.nojoin t)
+  case wait ms =>
+    refine simple _ rfl (by simpa using hexc) (by simpa using hub) ?_
+    have hlater := hw ms rfl
+    dsimp only
+    rw [dueCount_add_later _ _ _ (by rw [stopThread_mtime, stopThread_scaled]; exact hlater)]
+    exact stopThread_due _ t
   case raise ab =>
     subst hop
     have excCase : ∀ s' : St, s'.ub = false → s'.exc = some Exc.abort → s'.stack = Frame.vm t dl ct true (n + 1) :: rest →
@@ -260,16 +273,12 @@ theorem step_dec (E : Env) (δ : Nat) (C : Ctx E δ) (s : St) (g : Good E δ s) 
         simp only [runFrame]
         split
         · rename_i tm hnx
-          obtain ⟨_, htm⟩ := Timer.next_none hnx
+          have htm := dueCount_next_none hnx
           refine ⟨tfRest _ rfl, ?_⟩
           rw [phi_norm (by exact hub) (by exact hexc), hold]
           simp [pot, htm]
         · rename_i t d tm hnx
-          obtain ⟨i, hi, _, _, htm⟩ := Timer.next_some hnx
-          have hlen : tm.elems.length + 1 = s.timer.elems.length := by
-            have hil : i < s.timer.elems.length := by
-              have := List.getElem?_eq_some_iff.mp hi; exact this.1
-            rw [htm]; simp [List.length_eraseIdx, hil]; omega
+          have hlen : dueCount tm + 1 = dueCount s.timer := dueCount_next_some hnx
           split
           · -- Resume(): the thread's VM is entered at the top level
             generalize hs2 : ({ s with cur := some t, timer := tm, threads := upd s.threads t (fun x => { x with ts := TState.running }) } : St) = s2
@@ -282,7 +291,7 @@ theorem step_dec (E : Env) (δ : Nat) (C : Ctx E δ) (s : St) (g : Good E δ s) 
               refine ⟨by (intro t' dl' ct' n' r' hst' _; rw [a1, e1] at hst'; cases hst'), ?_⟩
               rw [phi_exc (by rw [a5]; exact e3) a3, a1, e1, hold]
               simp only [List.length_cons, pot]
-              have : 1 ≤ s.timer.elems.length * Cw N D := by
+              have : 1 ≤ dueCount s.timer * Cw N D := by
                 rw [← hlen]; simp [Cw, Nat.add_mul]; omega
               omega
             · obtain ⟨dl, ct, a1, _, a3, _, a5, _⟩ := enterVM_ok E s2 t hd
@@ -330,7 +339,7 @@ theorem step_dec (E : Env) (δ : Nat) (C : Ctx E δ) (s : St) (g : Good E δ s) 
         · rename_i hpost
           have hpf : post = false := by simpa using hpost
           subst hpf
-          have hexit : TopFetch δ E.cfg.maxExec (exitVM s t rest) ∧ phi N D (exitVM s t rest) < pot N D (Frame.vm t dl ct false n :: rest) + s.timer.elems.length * Cw N D := by
+          have hexit : TopFetch δ E.cfg.maxExec (exitVM s t rest) ∧ phi N D (exitVM s t rest) < pot N D (Frame.vm t dl ct false n :: rest) + dueCount s.timer * Cw N D := by
             refine ⟨tfRest _ rfl, ?_⟩
             rw [phi_norm (by exact hub) (by exact hexc)]
             simp [exitVM, pot]
@@ -344,10 +353,17 @@ theorem step_dec (E : Env) (δ : Nat) (C : Ctx E δ) (s : St) (g : Good E δ s) 
                 have : th.vs = VState.running := by simpa using hvs
                 simp [vmRunning, hth, this]
               exact execOp_dec E δ C s g t th dl ct n rest _ (nest_op C.cls _ _) hst hexc hub hrun
+                (fun ms hms => g.wok th.label th.pc ms hms)
 
 theorem good_step (E : Env) (δ : Nat) (C : Ctx E δ) (s : St) (g : Good E δ s) (hnh : halted s = false) :
     Good E δ (step E s) :=
-  ⟨step_inv E s 0 g.inv, step_allOK E δ C.hL C.inc s g.ok, step_good E C.cls C.prot s g.gs, (step_dec E δ C s g hnh).1⟩
+  ⟨step_inv E s 0 g.inv, step_allOK E δ C.hL C.inc s g.ok, step_good E C.cls C.prot s g.gs, (step_dec E δ C s g hnh).1,
+    by
+      intro l pc ms h
+      have hc := step_clocks E s
+      simp only [clocks, Prod.mk.injEq] at hc
+      rw [hc.1, hc.2]
+      exact g.wok l pc ms h⟩
 
 /-- a good state halts within `phi` steps -/
 theorem halts_within (E : Env) (δ : Nat) (C : Ctx E δ) : ∀ (b : Nat) (s : St), Good E δ s →
@@ -367,7 +383,7 @@ theorem halts_within (E : Env) (δ : Nat) (C : Ctx E δ) : ∀ (b : Nat) (s : St
 
 /-- the state right after `ExecuteThread` -/
 theorem startCall_cases (E : Env) (s0 : St) (l : Nat) :
-    ((startCall E s0 l).timer.elems.length ≤ s0.timer.elems.length ∧ (startCall E s0 l).ub = s0.ub) ∧
+    (dueCount (startCall E s0 l).timer ≤ dueCount s0.timer ∧ (startCall E s0 l).ub = s0.ub) ∧
     (((startCall E s0 l).stack = [.sei s0.nextTid s0.cur, .thrExec] ∧ (startCall E s0 l).exc = some .depth) ∨
      (∃ dl ct, (startCall E s0 l).stack = [.vm s0.nextTid dl ct false 0, .sei s0.nextTid s0.cur, .thrExec] ∧
         (startCall E s0 l).exc = none)) := by
